@@ -36,6 +36,8 @@
 #include <libcdsBasics.h>
 using namespace cds_utils;
 
+#include "VerifHooks.h"
+
 #define GET_TIME_DIVIDER                                                       \
   ((double)1.0) // getTime deals with "seconds" as time unit.
 #define GET_TIME_UNIT "sec"
@@ -126,6 +128,7 @@ inline uint decodeVB2(uint *c, uchar *r) {
 inline ushort mask(uint k) { return (65535u >> (16u - k)); }
 
 inline size_t Reallocate(uchar **array, size_t len) {
+  LIBCSD_VERIF_COUNT_REALLOC();
   size_t llen = len * 2;
   uchar *xarr = new uchar[llen];
   memcpy(xarr, *array, len);
@@ -141,6 +144,7 @@ inline size_t Reallocate(uchar **array, size_t len) {
 }
 
 inline size_t Reallocate(int **array, size_t len) {
+  LIBCSD_VERIF_COUNT_REALLOC();
   size_t llen = len * 2;
   int *xarr = new int[llen];
   memcpy(xarr, *array, len * sizeof(int));
